@@ -566,6 +566,19 @@ fn gen_struct(t: &mut Tape, o: &GenOpts, lab: &mut Labels) -> Item {
             }
         }
     }
+    // intermediate structs that only child-path ghosts reach (no #[child] member names them): two sibling paths, so that
+    // the order in which they are built is observable
+    let mut ghost_only: Vec<String> = vec![];
+    if shape == Shape::Named && !o.bare_names_only && t.chance(1, 7) {
+        lab.add("ghosts:ghost-only-child-paths");
+        for p in ["gx", "gy", "gx.gz"].iter().take(2 + t.below(2)) {
+            ghost_only.push(p.to_string());
+            if !cp_entries.iter().any(|e| e.0 == *p) {
+                cp_entries.push((p.to_string(), format!("T_{}", p.replace('.', "_")), if t.chance(1, 5) { Some(Hint::Struct) } else { None }));
+            }
+        }
+    }
+    let mut tuple_in_dedicated: Vec<String> = vec![];
     if !cp_entries.is_empty() {
         t.shuffle(&mut cp_entries);
         // one-entry-per-line style: a trailing comma after the last entry (the type text carries it; hint-less entries only)
@@ -582,14 +595,36 @@ fn gen_struct(t: &mut Tape, o: &GenOpts, lab: &mut Labels) -> Item {
         if t.chance(1, 4) {
             if let Some(d) = pick_ded(t, &cps, lab) {
                 lab.add("child_parents:dedicated");
-                type_instrs.push(Instr::ChildParents { ded: Some(d), entries: cp_entries.clone() });
+                // the dedicated copy may describe the intermediate structs with other forms than the default one
+                // (the counterparts are different types); ghost-only paths stay struct-form (their ghosts are named)
+                let mut ded_entries = cp_entries.clone();
+                if shape == Shape::Named && t.coin() {
+                    lab.add("child_parents:dedicated-with-other-hints");
+                    for e in ded_entries.iter_mut() {
+                        if !ghost_only.contains(&e.0) && t.coin() {
+                            e.2 = match e.2 {
+                                Some(Hint::Tuple) => None,
+                                _ => {
+                                    tuple_in_dedicated.push(e.0.clone());
+                                    Some(Hint::Tuple)
+                                }
+                            };
+                        }
+                    }
+                }
+                if t.coin() {
+                    let at = type_instrs.len() - 1;
+                    type_instrs.insert(at, Instr::ChildParents { ded: Some(d), entries: ded_entries });
+                } else {
+                    type_instrs.push(Instr::ChildParents { ded: Some(d), entries: ded_entries });
+                }
             }
         }
     }
 
     // struct-level ghosts: the entry names must fit the form of every counterpart they apply to
     // (named member for a struct-form counterpart, trailing index for a tuple-form one)
-    if t.chance(1, 3) {
+    if t.chance(1, 3) || !ghost_only.is_empty() {
         let form = |c: &Cp| -> Hint {
             match c.hint {
                 Some(h) => h,
@@ -628,10 +663,13 @@ fn gen_struct(t: &mut Tape, o: &GenOpts, lab: &mut Labels) -> Item {
             };
             for name in names {
                 let mut entries = vec![];
+                for (i, p) in ghost_only.iter().enumerate() {
+                    entries.push(GhostEntry { child_path: Some(p.clone()), ident: format!("go{}", i), action: expr(t, false, 0) });
+                }
                 let n = 1 + t.below(3);
                 for i in 0..n {
                     // nested (child-path) ghosts: named S, entry not hinted as tuple
-                    let nested: Vec<&(String, String, Option<Hint>)> = cp_entries.iter().filter(|e| shape == Shape::Named && e.2 != Some(Hint::Tuple)).collect();
+                    let nested: Vec<&(String, String, Option<Hint>)> = cp_entries.iter().filter(|e| shape == Shape::Named && e.2 != Some(Hint::Tuple) && !tuple_in_dedicated.contains(&e.0)).collect();
                     if !nested.is_empty() && t.chance(1, 3) {
                         lab.add("ghosts:child-path");
                         entries.push(GhostEntry { child_path: Some(t.pick(&nested).0.clone()), ident: format!("gn{}", i), action: expr(t, false, 0) });
